@@ -282,6 +282,61 @@ def _install(T):
             raise Unsupported("2-D concatenate")
         return V.concat(parts)
 
+    def _conc_list(I, a, what):
+        a = as_array(I, a) if not isinstance(a, Arr) else a
+        if not V.is_conc(a.n):
+            raise Unsupported("%s of a sequence of symbolic length" % what)
+        return a.to_list(), a.dtype
+
+    def _poly_mul(x, y):
+        out = [0] * (len(x) + len(y) - 1)
+        for i, u in enumerate(x):
+            for j, w in enumerate(y):
+                out[i + j] = out[i + j] + u * w
+        return out
+
+    @reg("numpy.convolve", doc="convolve(a, b) (mode 'full'): coefficients of the product polynomial; concrete lengths")
+    def np_convolve(I, a, b, mode="full", **kw):
+        if mode != "full":
+            raise Unsupported("convolve mode %r" % (mode,))
+        x, dx = _conc_list(I, a, "convolve")
+        y, dy = _conc_list(I, b, "convolve")
+        dt = "complex" if "complex" in (dx, dy) else ("int" if dx == dy == "int" else "float")
+        return Arr.from_items(_poly_mul(x, y), dtype=dt)
+
+    @reg("numpy.poly", doc="poly(roots): coefficients [1, ...] of prod (z - r_i); real when every imaginary part vanishes identically "
+                           "(numpy returns the real part when the roots are closed under conjugation); concrete length")
+    def np_poly(I, roots, **kw):
+        r, dt = _conc_list(I, roots, "poly")
+        c = [Fraction(1)]
+        for ri in r:
+            c = _poly_mul(c, [Fraction(1), -ri])
+        if any(isinstance(v, Cx) for v in c):
+            iz = getattr(I.dom, "is_zero", None)
+            if iz is not None and all((not isinstance(v, Cx)) or iz(v.im) for v in c):
+                return Arr.from_items([v.re if isinstance(v, Cx) else v for v in c], dtype="float")
+            return Arr.from_items([V.Cx.of(v) for v in c], dtype="complex")
+        return Arr.from_items(c, dtype="float")
+
+    @reg("scipy.signal.deconvolve", doc="deconvolve(num, den) = (quotient, remainder) of polynomial long division, num = conv(den, q) + r; concrete lengths")
+    def sp_deconvolve(I, num, den, **kw):
+        n, dn = _conc_list(I, num, "deconvolve")
+        d, dd = _conc_list(I, den, "deconvolve")
+        if len(d) == 0 or (V.is_conc(d[0]) and d[0] == 0):
+            from .interp import RaiseSig
+            raise RaiseSig("ValueError", "BUG: filter coefficient a[0] == 0 not supported yet")
+        dt = "complex" if "complex" in (dn, dd) else "float"
+        if len(n) < len(d):
+            return (Arr.from_items([], dtype=dt), Arr.from_items(list(n), dtype=dt))
+        rem = list(n)
+        q = []
+        for i in range(len(n) - len(d) + 1):
+            c = V.s_div(rem[i], d[0])
+            q.append(c)
+            for j, dj in enumerate(d):
+                rem[i + j] = rem[i + j] - c * dj
+        return (Arr.from_items(q, dtype=dt), Arr.from_items(rem, dtype=dt))
+
     @reg("numpy.append", doc="append(a, v): a followed by v (flattened)")
     def np_append(I, a, v, **kw):
         a = as_array(I, a)
@@ -435,6 +490,20 @@ def _install(T):
                 r = r * v
             return r
         raise Unsupported("prod over symbolic length")
+
+    @reg("numpy.vdot", doc="vdot(a, b) = sum_k conj(a[k]) * b[k] for 1-D arguments (the FIRST argument is conjugated)")
+    def np_vdot(I, a, b):
+        if isinstance(a, (list, tuple)):
+            a = as_array(I, a)
+        if isinstance(b, (list, tuple)):
+            b = as_array(I, b)
+        if V.is_num(a) or V.is_num(b):
+            return V.s_conj(a) * b if V.is_num(a) else a.map(V.s_conj) * b
+        if isinstance(a, Arr) and isinstance(b, Arr):
+            I.dom.require_eq(a.n, b.n, "vdot: shapes not aligned")
+            sa, sb = a.snap(), b.snap()
+            return I.dom.sum(0, a.n, lambda k: V.s_conj(sa(k)) * sb(k))
+        raise Unsupported("vdot of 2-D arguments")
 
     @reg("numpy.dot", doc="dot: sum_k a[..,k] * b[k,..] (no conjugation)")
     def np_dot(I, a, b):
